@@ -518,6 +518,20 @@ static std::string gen_c18(uint64_t seed, uint64_t idx, bool thorough) {
     std::string scen = pr.scen;
     bool udp = pr.udp, fd = pr.fd, tscf = r.coin();
     bool fault_free = (idx / 12) % 8 == 7;  // separate fault-free stratum: valid traffic only
+    // soak stratum (thorough tier only): valid traffic for 10^5..10^6 datagrams, so that whatever a listener accumulates per datagram
+    // (counters, budgets, indices) gets the chance to run over
+    if (thorough && (idx / 12) % 1000 == 500 && (scen == "cvf" || scen == "aaf" || scen == "hello" || scen == "vss")) {
+        uint64_t n = r.coin() ? r.range(1060000, 1200000) : r.range(100000, 500000);
+        uint64_t dt = (scen == "cvf" || scen == "aaf") ? r.range(20000, 60000) : 1000000000ULL;  // the hello/vss talkers send once per second on their own
+        uint64_t drain = 60000000ULL, tend = 2000000 + n * dt + drain + ((scen == "cvf" || scen == "aaf") ? 200000000ULL : 5000000000ULL);
+        o.line(strf("plan v1 engine=net prop=C18 seed=0x%llx idx=%llu", (unsigned long long)seed, (unsigned long long)idx));
+        o.line(strf("cfg scen=%s udp=%d fd=0 tscf=%d count=1 mtt=%d soak=1 o0=%d ethpad=0 sched=rtb lat=%llu:%llu cost=%llu:%llu qcap=256 tend=%llu drain=%llu quiet=0 rseed=0x%llx skew0=0 skew1=0 skew2=0",
+                    scen.c_str(), udp, (int)tscf, (int)r.range(0, 5), (int)r.coin(), (unsigned long long)r.range(1000, 20000), (unsigned long long)r.range(20000, 100000),
+                    (unsigned long long)r.range(50, 200), (unsigned long long)r.range(200, 1000), (unsigned long long)tend, (unsigned long long)drain, (unsigned long long)r.next()));
+        if (scen == "cvf" || scen == "aaf")
+            o.line(strf("inrep t=1000000 dt=%llu n=%llu node=0 kind=%s seed=0x%llx", (unsigned long long)dt, (unsigned long long)n, scen == "cvf" ? "nal" : "pcm", (unsigned long long)r.next()));
+        return o.s;
+    }
     uint64_t rseed = r.next();
     uint64_t t_origin = 1700000000ULL * 1000000000ULL + (rseed % 1000000007ULL) * 1000ULL;
     int count = scen == "can" ? (int)(r.chance(0.5) ? 1 : r.range(1, fd ? 6 : 12)) : 1;
